@@ -1603,7 +1603,7 @@ SELFTEST = [
                 "                            String::from(\"no route found (no path in router)\"),\n                        )\n                    })?)\n                }")],
      "why": "behaviour-preserving: the literal arm reports its own miss with `?` (same 404) instead of leaving it to the ok_or_else behind the match"},
 ]
-LEVEL_TEXT += " Also (R8 = C02.R2): each trie node has one kind of outgoing edge, which the walk's per-kind arms rely on. Also (R9): every ApiDescription method taking the description by value hands its router on (builders return the receiver, into_router returns self.router)."
+LEVEL_TEXT += " Also (R8 = C02.R2): each trie node has one kind of outgoing edge, which the walk's per-kind arms rely on. Also (R9): every ApiDescription method taking the description by value hands its router on (builders return the receiver, into_router returns self.router). Also (R10 = C03.R1): the segments fed to the walk are the client's, percent-decoded once and not otherwise rewritten."
 
 
 SELFTEST += [
